@@ -81,28 +81,57 @@ def parse_fields(body):
     fields = []
     for part in split_top(body):
         p = part.strip()
-        # drop attributes in front of the field
+        # attributes in front of the field: kept (normalised) next to the type, so that a `#[serde(default)]`,
+        # `alias`, `rename`, `skip`, `flatten`, ... on a field is part of the table
+        attrs = []
         while p.startswith("#["):
-            j = p.find("]")
+            j = attr_end(p)
+            attrs.append(re.sub(r"\s+", "", p[:j + 1]))
             p = p[j + 1:].strip()
         if not p:
             continue
         m = re.match(r"(?:pub\s+)?(r#)?(\w+)\s*:\s*(.*)$", p, re.S)
         if not m:
             raise ValueError("cannot parse field %r" % p)
-        fields.append([m.group(2), norm_type(m.group(3))])
+        ty = norm_type(m.group(3))
+        attrs = [a for a in attrs if not a.startswith("#[doc") and not a.startswith("#[allow")]
+        fields.append([m.group(2), ty + ("".join(" " + a for a in attrs))])
     return fields
+
+
+def attr_end(p):
+    depth = 0
+    for j, ch in enumerate(p):
+        if ch == "[":
+            depth += 1
+        elif ch == "]":
+            depth -= 1
+            if depth == 0:
+                return j
+    return len(p) - 1
+
+
+def container_attrs(text, kind, name):
+    """the attributes written directly above `pub enum|struct <name>` (derives, cw_serde, serde(...)), normalised"""
+    m = re.search(r"((?:\s*#\[[^\n]*\]\s*\n)*)\s*pub %s %s\b" % (kind, re.escape(name)), text)
+    if not m:
+        return None
+    attrs = [re.sub(r"\s+", "", a) for a in re.findall(r"#\[.*\]", m.group(1))]
+    return " ".join(a for a in attrs if not a.startswith("#[allow") and not a.startswith("#[doc"))
 
 
 def parse_enum(text, name):
     m = re.search(r"pub enum %s\s*\{" % re.escape(name), text)
     if not m:
         return None
+    ca = container_attrs(text, "enum", name) or ""
+    to_snake = "cw_serde" in ca or 'rename_all="snake_case"' in ca
     body, _ = block_after(text, m.end() - 1)
     variants = []
     for part in split_top(body):
         p = part.strip()
         rename = None
+        extra = []
         while p.startswith("#["):
             j = 0
             depth = 0
@@ -117,12 +146,16 @@ def parse_enum(text, name):
             r = re.search(r'serde\(\s*rename\s*=\s*"([^"]+)"', attr)
             if r:
                 rename = r.group(1)
+            elif not attr.startswith("#[returns") and not attr.startswith("#[doc") and not attr.startswith("#[allow"):
+                extra.append(re.sub(r"\s+", "", attr))
             p = p[j + 1:].strip()
         if not p:
             continue
         m2 = re.match(r"(\w+)\s*(.*)$", p, re.S)
         vname, rest = m2.group(1), m2.group(2).strip()
-        tag = rename or snake(vname)
+        tag = rename or (snake(vname) if to_snake else vname)
+        if extra:
+            tag = tag + " " + " ".join(extra)
         if rest.startswith("{"):
             fb, _ = block_after(rest, 0)
             variants.append([tag, parse_fields(fb)])
@@ -149,6 +182,32 @@ def entry_points(text):
     for m in re.finditer(r"#\[(?:cfg_attr\([^\]]*entry_point\)|entry_point)\]\s*pub fn (\w+)", text):
         eps.append(m.group(1))
     return sorted(eps)
+
+
+def storage_keys(text):
+    """(constant or function name, constructor, storage key) of every cw-storage-plus item the file declares"""
+    out = []
+    for m in re.finditer(r"pub const (\w+)\s*:\s*[^=]*=\s*(\w+)::new\(\s*\"([^\"]*)\"", text):
+        out.append([m.group(1), m.group(2) + ":" + m.group(3)])
+    for m in re.finditer(r"(\w*Map|Item|Deque|SnapshotMap|SnapshotItem)::new\(\s*\"([^\"]*)\"\s*,", text):
+        out.append(["<fn>", m.group(1) + ":" + m.group(2)])
+    for m in re.finditer(r"(?:Multi|Unique)Index::new\([^\"]*\"([^\"]*)\"(?:\s*,\s*\"([^\"]*)\")?", text):
+        out.append(["<index>", "Index:" + ":".join(x for x in m.groups() if x)])
+    return sorted(out)
+
+
+def all_sources(*p):
+    """every non-test source file of a contract except the legacy layouts kept for migrations"""
+    root = os.path.join(REPO, *p)
+    out = []
+    for dirpath, dirs, files in os.walk(root):
+        rel = os.path.relpath(dirpath, root)
+        if rel.startswith("tests") or rel.startswith(os.path.join("migrations", "states")):
+            continue
+        for fn in sorted(files):
+            if fn.endswith(".rs"):
+                out.append(strip_comments(open(os.path.join(dirpath, fn)).read()))
+    return "\n".join(out)
 
 
 def read(*p):
@@ -180,6 +239,34 @@ def extract():
     t["instantiate"] = parse_struct(tr_msg, "InstantiateMsg")
     t["migrate"] = parse_struct(tr_msg, "MigrateMsg")
     t["SwapRoute"] = parse_struct(tr_state, "SwapRoute")
+    # stored layouts and storage keys (C18: what a migration must produce; a storage item added to the source is state
+    # the model does not have)
+    st_state = read("contracts", "staking", "src", "state.rs")
+    mw = read("packages", "milky_way", "src", "staking.rs")
+    for n in ("Config", "NativeChainConfig", "ProtocolChainConfig", "ProtocolFeeConfig", "State", "UnstakeRequest",
+              "IbcWaitingForReply", "IBCTransfer"):
+        s["stored_" + n] = parse_struct(st_state, n)
+    s["stored_PacketLifecycleStatus"] = parse_enum(st_state, "PacketLifecycleStatus")
+    s["stored_Batch"] = parse_struct(mw, "Batch")
+    s["stored_BatchStatus"] = parse_enum(mw, "BatchStatus")
+    s["storage_keys"] = storage_keys(all_sources("contracts", "staking", "src"))
+    for n in ("State", "Config"):
+        t["stored_" + n] = parse_struct(tr_state, n)
+    t["storage_keys"] = storage_keys(all_sources("contracts", "treasury", "src"))
+    s["attrs"] = [[n, container_attrs(st_msg, k, n) or "?"] for k, n in
+                  (("enum", "ExecuteMsg"), ("enum", "QueryMsg"), ("enum", "SudoMsg"), ("enum", "IBCLifecycleComplete"),
+                   ("enum", "MigrateMsg"), ("struct", "InstantiateMsg"))] + \
+                 [[n, container_attrs(st_types, "struct", n) or "?"] for n in
+                  ("UnsafeNativeChainConfig", "UnsafeProtocolChainConfig", "UnsafeProtocolFeeConfig")]
+    s["attrs"] += [[n, container_attrs(st_state, "struct", n) or "?"] for n in
+                   ("Config", "NativeChainConfig", "ProtocolChainConfig", "ProtocolFeeConfig", "State", "UnstakeRequest",
+                    "IbcWaitingForReply", "IBCTransfer")] + \
+                  [["PacketLifecycleStatus", container_attrs(st_state, "enum", "PacketLifecycleStatus") or "?"],
+                   ["Batch", container_attrs(mw, "struct", "Batch") or "?"], ["BatchStatus", container_attrs(mw, "enum", "BatchStatus") or "?"]]
+    t["attrs"] = [[n, container_attrs(tr_state, "struct", n) or "?"] for n in ("State", "Config")] + \
+                 [[n, container_attrs(tr_msg, k, n) or "?"] for k, n in
+                  (("enum", "ExecuteMsg"), ("enum", "QueryMsg"), ("struct", "InstantiateMsg"), ("struct", "MigrateMsg"))] + \
+                 [["SwapRoute", container_attrs(tr_state, "struct", "SwapRoute") or "?"]]
     return out
 
 
